@@ -109,6 +109,7 @@ func (c15) Generate(r *core.Rng, run int, tier string) *core.History {
 				`"a string statement"`, "`a raw string\nstatement over two lines`", `"x y" + "z"`,
 				fmt.Sprintf(`ff9 = [() => %d, () => %d]`, r.Intn(9), r.Intn(9)), fmt.Sprintf(`println((() => %d)())`, r.Intn(9)),
 				fmt.Sprintf(`println(len([() => 1]), (() => { %d })())`, r.Intn(9)),
+				fmt.Sprintf(`mm9 = {1 + %d: "x", "k" + "1": %d, len("ab") * 2: 3}`, r.Intn(5), r.Intn(9)), `println({2 * 3: 1}[6], {"a" + "b": 2}.ab)`,
 			})})
 			continue
 		}
